@@ -20,9 +20,11 @@
 (*               the value pushed           {{^x}}  body once iff falsy, nothing pushed                               *)
 (*   {{>x}}      the partial's source rendered against the live stack; unknown partial / no resolver / broken partial *)
 (*               source: error WHEN REACHED (not when skipped); render depth (sections + partials) <= DepthMax         *)
+(* KnownDevs: deviations of the real engine from this semantics that are documented observations (X17.meta.json).   *)
 EXTENDS MustacheData, FiniteSets
 
 Eligible == {"open", "inv", "close", "partial", "comment"}
+KnownDevs == {"CrlfBlankIndented"}
 Tok(x) == [k |-> x.k, nm |-> x.nm, path |-> x.path, txt |-> x.txt, ind |-> ""]
 RECURSIVE Expand(_)
 Expand(ls) == IF ls = <<>> THEN <<>>
@@ -75,13 +77,17 @@ Prepare(raw, F) ==
 
 \* ---- indentation of a standalone partial's SOURCE: before the first line unless it is empty, and after every line
 \* end that is followed by something other than "\n"
+\* Known deviation of the code (F contains "CrlfBlankIndented"): only a line that is empty up to "\n" counts as empty, so a
+\* blank line of a CRLF source ("\r\n") IS indented - contrary to the documentation of applyIndent ("NOT before an empty
+\* line") and to the engine's own treatment of "\r\n" as one line end.
 WsTok(s) == [k |-> "ws", nm |-> "", path |-> <<>>, txt |-> s, ind |-> ""]
-StartsNl(t) == t.k = "nl" /\ t.txt = "\n"
-Indent(ts, s) == IF s = "" \/ ts = <<>> THEN ts
-                 ELSE LET f[i \in 0..Len(ts)] ==
-                              IF i = 0 THEN (IF StartsNl(ts[1]) THEN <<>> ELSE <<WsTok(s)>>)
-                              ELSE f[i - 1] \o <<ts[i]>> \o (IF ts[i].k = "nl" /\ i < Len(ts) /\ ~StartsNl(ts[i + 1]) THEN <<WsTok(s)>> ELSE <<>>)
-                      IN f[Len(ts)]
+EmptyLine(t, F) == t.k = "nl" /\ (t.txt = "\n" \/ "CrlfBlankIndented" \notin F)
+Indent(ts, s, F) == IF s = "" \/ ts = <<>> THEN ts
+                    ELSE LET f[i \in 0..Len(ts)] ==
+                                 IF i = 0 THEN (IF EmptyLine(ts[1], F) THEN <<>> ELSE <<WsTok(s)>>)
+                                 ELSE f[i - 1] \o <<ts[i]>>
+                                      \o (IF ts[i].k = "nl" /\ i < Len(ts) /\ ~EmptyLine(ts[i + 1], F) THEN <<WsTok(s)>> ELSE <<>>)
+                         IN f[Len(ts)]
 
 \* ---- names
 Falsy(v, F) == \/ v.t = "null" \/ (v.t = "bool" /\ ~v.v) \/ (v.t = "str" /\ v.v = "")
@@ -131,7 +137,7 @@ R(ts, m, i, hi, st, d, res, F) ==
               [] t.k = "partial" ->
                    Then(IF ~res THEN Fail(<<>>)
                         ELSE IF t.nm \notin DOMAIN Partials THEN Fail(<<t.nm>>)
-                        ELSE LET p == Prepare(Indent(Expand(Partials[t.nm]), t.ind), F) IN
+                        ELSE LET p == Prepare(Indent(Expand(Partials[t.nm]), t.ind, F), F) IN
                              IF p.err THEN Fail(<<t.nm>>)
                              ELSE Called(t.nm, R(p.ts, p.m, 1, Len(p.ts), st, d + 1, res, F)),
                         rest(i + 1))
